@@ -10,6 +10,9 @@ COMMON_NOTE = ("Trusted: go/types, go/ssa construction, call-graph over-approxim
 
 # id -> (technique, level text, level note, design ref)
 CLAIMED = {
+ "C01": ("who-may-call check over the VTA∪CHA call graph (no render path reaches a Put into a parse-tree pool), store lint on render-reachable functions, per-field must-assign / must-zero dataflow over every pool's acquire and release functions (with interprocedural initialiser summaries), borrow/release typestate in the parser",
+         "Decides the ownership clauses for every history: a render can never release, recycle or write the cached tree; every live field of every pooled object is definitely re-initialised between owners; no value is left in two pools; memory borrowed from a pooled tokenizer is not used after the tokenizer's release. Equality of output bytes with a pristine process is argued from these, not observed.",
+         "One frozen exception: the tokenizer's interning table survives reuse and is accepted only while its transparency sub-obligation holds. unsafe container-of in ReleaseTokenizer is recognised as 'releases its argument'. " + COMMON_NOTE, "§2 C01"),
  "C06": ("must-pass-through dataflow on SSA (a sandbox guard querying the policy for the same name dominates every dynamic FilterFunc/FunctionFunc call and built-in arm) + must-assign dataflow for flag inheritance at every derived RenderContext + who-writes-the-flag check",
          "Sound structural argument for the confinement clause on every path of the current source: whenever the context flag is set, a policy query for exactly the invoked name precedes every filter/function invocation, the flag is inherited by every derived context and is never cleared. Liveness ('allowed constructs keep working') is not decided.",
          "Assumes filters/functions are invoked only through values of the named types FilterFunc/FunctionFunc (R06.5 checks none is converted to an interface on render paths); user SecurityPolicy implementations are assumed to answer truthfully. " + COMMON_NOTE, "§2 C06"),
